@@ -26,7 +26,7 @@ EXPLANATION = (
 NOT_DECIDED = ["that the drawn curve passes through the stored predicted fluxes (numerical; 'within rounding of constants')", "matplotlib rendering"]
 ASSUMPTIONS = ["matplotlib draws a LineCollection's segments in list order"]
 TRUSTED = ["python ast", "sedlint E4/E5"]
-MIN = {'PERM-8': 3, 'ALG-16': 8, 'FLAG': 8, 'CFG-13': 3}
+MIN = {'PERM-8': 8, 'ALG-16': 7, 'FLAG': 0, 'CFG-13': 0}          # PERM-8: the eight interpreted configurations of plot(); FLAG / CFG-13 come from the layout rules, which only corroborate
 TECHNIQUE = 'static analysis: index-coherence sets in the plot loop, AST value numbering of the SED scaling methods, finite-domain specialisation over display modes'
 
 
@@ -65,12 +65,26 @@ def plot_anchors(repo):
 def run(ctx):
     from ..roundtrip import SuspectCtx
     repo = ctx.repo
-    trusted, why = plot_anchors(repo)
-    pctx = ctx if trusted else SuspectCtx(ctx, 'plot() is laid out differently from what this rule reads (%s); the rule' % why)
-    try:
-        plot_rules(pctx)
-    except AnalysisError as e:
-        ctx.undecided('PERM-8', 'plot() structure', 'sedfitter/plot.py', 'structure not recognised: %s' % e)
+    # plot() is decided by interpreting it on eight configurations (plotdrv); the rules that read its layout corroborate an OK verdict and stand in, as
+    # suspects, when the interpretation has none.  The SED methods it calls and the kiloparsec constant are decided on their own values.
+    from .. import plotdrv
+    from ..roundtrip import CorroborateCtx
+    plot = ctx.fn(repo.func('plot', 'plot'))
+    verdict = plotdrv.decide(ctx, repo, plot, loc(plot))
+    ctx.extra['plot_configurations'] = 2 * len(plotdrv.MODES)
+    method_rules(ctx)
+    if verdict == 'ok':
+        pctx = CorroborateCtx(ctx, 'decided by interpretation on the enumerated configurations')
+    elif verdict == 'undecided':
+        trusted, why = plot_anchors(repo)
+        pctx = ctx if trusted else SuspectCtx(ctx, 'plot() is laid out differently from what this rule reads (%s); the rule' % why)
+    else:
+        pctx = None
+    if pctx is not None:
+        try:
+            plot_rules(pctx)
+        except AnalysisError as e:
+            pctx.undecided('PERM-8', 'plot() structure', 'sedfitter/plot.py', 'structure not recognised: %s' % e)
     common.check_ownership(ctx, only=('plot',))
     # the stored extinction law survives the fit file unchanged, and get_av is the normalised law (results passed as a file)
     from . import c14, c13
@@ -82,6 +96,50 @@ def run(ctx):
     common.check_shared_class_state(ctx, [('sed.cube', 'BaseCube'), ('sed.cube', 'SEDCube'), ('sed.sed', 'SED'), ('extinction.extinction', 'Extinction'), ('fit_info', 'FitInfo')])          # the display modes other than 'interp' draw SED.interpolate at the filters' apertures
     from . import c12
     c12.check_get_sed(ctx)           # 'draws that model's SED': the cube slice found by name on the full model axis
+
+
+def method_rules(ctx):
+    """the SED methods plot() scales and reddens with, and the kiloparsec constant: decided on their values, whatever plot() looks like"""
+    repo = ctx.repo
+    pm = repo.module('plot')
+    kpc = pm.globals.get('KPC')
+    kv = const(kpc) if kpc is not None else None
+    if kv is None:
+        ctx.undecided('ALG-16', 'KPC is one kiloparsec in cm', pm.path, 'KPC constant not found')
+    else:
+        ctx.expect(abs(kv / 3.0856775814913673e21 - 1) < 1e-3, 'ALG-16', 'KPC is one kiloparsec in cm', '%s:%d <module>' % (pm.path, kpc.lineno), 'KPC = %g within 0.1%% of 3.0857e21' % kv,
+                   'KPC = %g is not a kiloparsec in cm' % kv, 'kpc-constant')
+    # ---- SED methods
+    scls = repo.cls('sed.sed', 'SED')
+    def mk():
+        return Obj(scls, {'name': 'M', '_distance': None, 'distance': scalar(sym('dold'), unit_atom('cm')), '_apertures': symarr('cap', (A,), unit=unit_atom('au')),
+                          '_flux': symarr('flux', (A, N), unit=unit_atom('mJy')), '_error': symarr('err', (A, N), unit=unit_atom('mJy')),
+                          '_wav': symarr('wav', (N,), unit=unit_atom('micron')), '_nu': None})
+    std = ctx.fn(repo.func('sed.sed', 'SED.scale_to_distance'))
+    I = Interp(repo, SedHooks())
+    me = mk()
+    out = I.call(std, [scalar(sym('D'), num(1))], selfv=me)
+    cm = sym('unit:cm')
+    fac = (sym('dold') / (sym('D') * cm)).pow(2)
+    if isinstance(out, Obj):
+        compare(ctx, 'ALG-16', 'scale_to_distance flux', loc(std), out.attrs.get('_flux'), sym('flux', A, N) * fac, (A, N), vocab={'flux', 'err', 'dold', 'D'}, findings=I.findings, detail_ok='flux * (d_old / (D cm))^2')
+        compare(ctx, 'ALG-16', 'scale_to_distance error', loc(std), out.attrs.get('_error'), sym('err', A, N) * fac, (A, N), vocab={'flux', 'err', 'dold', 'D'}, detail_ok='error * (d_old / (D cm))^2')
+        compare(ctx, 'ALG-16', 'scale_to_distance distance', loc(std), out.attrs.get('distance'), sym('D') * cm, (), vocab={'D'}, detail_ok='distance = D cm')
+        same = isinstance(me.attrs.get('_flux'), Arr) and me.attrs['_flux'].poly == sym('flux', A, N)
+        ctx.expect(same and out is not me, 'ALG-16', 'scale_to_distance works on a copy', loc(std), 'the original SED is unchanged', 'the original SED is modified in place', 'copy')
+    else:
+        ctx.undecided('ALG-16', 'scale_to_distance', loc(std), 'not modelled: %r' % (out,))
+    sta = ctx.fn(repo.func('sed.sed', 'SED.scale_to_av'))
+    I = Interp(repo, SedHooks())
+    law = lambda x: Arr(x.dims, mk_fn('LAW', P(x.poly)), unit=num(1)) if isinstance(x, Arr) else Unk('law arg')
+    out = I.call(sta, [scalar(sym('av'), num(1)), law], selfv=mk())
+    red = mk_fn('exp10', P(sym('av') * mk_fn('LAW', P(sym('wav', N)))))
+    if isinstance(out, Obj):
+        compare(ctx, 'ALG-16', 'scale_to_av flux', loc(sta), out.attrs.get('_flux'), sym('flux', A, N) * red, (A, N), vocab={'flux', 'err', 'av', 'wav'}, fns={'LAW'}, findings=I.findings, detail_ok='flux * 10**(av * law(wav))')
+        compare(ctx, 'ALG-16', 'scale_to_av error', loc(sta), out.attrs.get('_error'), sym('err', A, N) * red, (A, N), vocab={'flux', 'err', 'av', 'wav'}, fns={'LAW'}, detail_ok='error * 10**(av * law(wav))')
+    else:
+        ctx.undecided('ALG-16', 'scale_to_av', loc(sta), 'not modelled: %r' % (out,))
+
 
 
 def plot_rules(ctx):
@@ -152,39 +210,6 @@ def plot_rules(ctx):
             ctx.undecided('ALG-16', 'distance passed to scale_to_distance', where(plot, sd[0]), 'KPC constant not found')
         else:
             compare(ctx, 'ALG-16', 'distance passed to scale_to_distance', where(plot, sd[0]), darg, mk_fn('exp10', P(sym('sc', 'r'))) * Poly.const(kv), (), vocab={'sc'}, detail_ok='10**sc * KPC (cm)')
-            ctx.expect(abs(kv / 3.0856775814913673e21 - 1) < 1e-3, 'ALG-16', 'KPC is one kiloparsec in cm', '%s:%d <module>' % (pm.path, kpc.lineno), 'KPC = %g within 0.1%% of 3.0857e21' % kv,
-                       'KPC = %g is not a kiloparsec in cm' % kv, 'kpc-constant')
-    # ---- SED methods
-    scls = repo.cls('sed.sed', 'SED')
-    def mk():
-        return Obj(scls, {'name': 'M', '_distance': None, 'distance': scalar(sym('dold'), unit_atom('cm')), '_apertures': symarr('cap', (A,), unit=unit_atom('au')),
-                          '_flux': symarr('flux', (A, N), unit=unit_atom('mJy')), '_error': symarr('err', (A, N), unit=unit_atom('mJy')),
-                          '_wav': symarr('wav', (N,), unit=unit_atom('micron')), '_nu': None})
-    std = ctx.fn(repo.func('sed.sed', 'SED.scale_to_distance'))
-    I = Interp(repo, SedHooks())
-    me = mk()
-    out = I.call(std, [scalar(sym('D'), num(1))], selfv=me)
-    cm = sym('unit:cm')
-    fac = (sym('dold') / (sym('D') * cm)).pow(2)
-    if isinstance(out, Obj):
-        compare(ctx, 'ALG-16', 'scale_to_distance flux', loc(std), out.attrs.get('_flux'), sym('flux', A, N) * fac, (A, N), vocab={'flux', 'err', 'dold', 'D'}, findings=I.findings, detail_ok='flux * (d_old / (D cm))^2')
-        compare(ctx, 'ALG-16', 'scale_to_distance error', loc(std), out.attrs.get('_error'), sym('err', A, N) * fac, (A, N), vocab={'flux', 'err', 'dold', 'D'}, detail_ok='error * (d_old / (D cm))^2')
-        compare(ctx, 'ALG-16', 'scale_to_distance distance', loc(std), out.attrs.get('distance'), sym('D') * cm, (), vocab={'D'}, detail_ok='distance = D cm')
-        same = isinstance(me.attrs.get('_flux'), Arr) and me.attrs['_flux'].poly == sym('flux', A, N)
-        ctx.expect(same and out is not me, 'ALG-16', 'scale_to_distance works on a copy', loc(std), 'the original SED is unchanged', 'the original SED is modified in place', 'copy')
-    else:
-        ctx.undecided('ALG-16', 'scale_to_distance', loc(std), 'not modelled: %r' % (out,))
-    sta = ctx.fn(repo.func('sed.sed', 'SED.scale_to_av'))
-    I = Interp(repo, SedHooks())
-    law = lambda x: Arr(x.dims, mk_fn('LAW', P(x.poly)), unit=num(1)) if isinstance(x, Arr) else Unk('law arg')
-    out = I.call(sta, [scalar(sym('av'), num(1)), law], selfv=mk())
-    red = mk_fn('exp10', P(sym('av') * mk_fn('LAW', P(sym('wav', N)))))
-    if isinstance(out, Obj):
-        compare(ctx, 'ALG-16', 'scale_to_av flux', loc(sta), out.attrs.get('_flux'), sym('flux', A, N) * red, (A, N), vocab={'flux', 'err', 'av', 'wav'}, fns={'LAW'}, findings=I.findings, detail_ok='flux * 10**(av * law(wav))')
-        compare(ctx, 'ALG-16', 'scale_to_av error', loc(sta), out.attrs.get('_error'), sym('err', A, N) * red, (A, N), vocab={'flux', 'err', 'av', 'wav'}, fns={'LAW'}, detail_ok='error * 10**(av * law(wav))')
-    else:
-        ctx.undecided('ALG-16', 'scale_to_av', loc(sta), 'not modelled: %r' % (out,))
-
     # ---- display modes
     mode_if = None
     for n_ in walk_local(lp):
@@ -315,6 +340,8 @@ MUST_FIRE = [
     ('returned collection built from another list', [(PL, "'lines': LineCollection(lines, colors=colors)}", "'lines': LineCollection(lines[:1], colors=colors)}")]),
 ]
 MUST_SILENT = [
+    ('filters\' apertures read before their wavelengths', [(PL, "    wav = np.array([f['wav'].to(u.micron).value for f in fin.meta.filters])\n    ap = np.array([f['aperture_arcsec'] for f in fin.meta.filters])\n", "    ap = np.array([f['aperture_arcsec'] for f in fin.meta.filters])\n    wav = np.array([f['wav'].to(u.micron).value for f in fin.meta.filters])\n")]),
+    ('curves of one fit built in a helper and appended with extend', [(PL, "                lines.append(np.column_stack([_to_value(s.wav), _to_value(flux)]))\n                colors.append(color[color_type])\n", "                one_line, one_color = [np.column_stack([_to_value(s.wav), _to_value(flux)])], [color[color_type]]\n                lines.extend(one_line)\n                colors.extend(one_color)\n")]),
     ('reddening factor via a temporary', [(SE, "        sed.flux = sed.flux * 10. ** (av * law(sed.wav))\n        sed.error = sed.error * 10. ** (av * law(sed.wav))", "        factor = 10. ** (law(sed.wav) * av)\n        sed.flux = factor * sed.flux\n        sed.error = factor * sed.error")]),
     ('distance ratio squared as product', [(SE, "sed.error = sed.error * (self.distance.to(u.cm) / sed.distance) ** 2", "ratio = self.distance.to(u.cm) / sed.distance\n        sed.error = sed.error * ratio * ratio")]),
 ]
